@@ -290,6 +290,25 @@ def ll1_obligations(L):
                                                        ('seq', [('sym', 'NEWLINE'), ('sym', 'INDENT'), ('plus', ('sym', 'stmt')), ('sym', 'DEDENT')])])))
         eq, w = ebnf.equivalent(ebnf.trim(d)[0], ebnf.trim(want)[0])
         obs.append(_ob('tab:%s:suite-shape' % v, eq, 'suite is simple_stmt | NEWLINE INDENT stmt+ DEDENT (what convert_node relies on)', [w], F))
+    if 'funcdef' in g.dfa and 'parameters' in g.dfa:
+        # every sentence of funcdef contains the symbol `parameters`, and every sentence of `parameters` has at least two
+        # symbols (so that node is never collapsed into its only child): what Function.__init__ / _find_parameters rely on
+        d = g.dfa['funcdef']
+        seen, todo, esc = {0}, [0], None
+        while todo:
+            x = todo.pop()
+            if x in d.final:
+                esc = x
+                break
+            for l, t in d.trans[x].items():
+                if l != 'parameters' and t not in seen:
+                    seen.add(t)
+                    todo.append(t)
+        dp = g.dfa['parameters']
+        short = 0 in dp.final or any(t in dp.final for t in dp.trans[0].values())
+        obs.append(_ob('tab:%s:funcdef-shape' % v, esc is None and not short,
+                       'every funcdef sentence contains `parameters`; every `parameters` sentence has >= 2 symbols (never collapsed)',
+                       [('final state reachable without parameters', esc), ('parameters sentence shorter than 2', short)], F))
     return obs
 
 
